@@ -196,8 +196,9 @@ def _r3_r5_callback(run):
         want_children.append(("nt", "Pos", (ev.expr("p.n + 1", {"p": pos}), ev.expr("2*p.x + %d" % dx, {"p": pos}), ev.expr("2*p.y + %d" % dy, {"p": pos}))))
     got_children = [e.term[2][0] if e.term[2] else None for e in reads]
     if got_children != want_children:
-        run.violated("C02.R3", f, reads[0].node if reads else None, "children read are %s; expected the four children (2x+dx, 2y+dy) of the "
-                     "callback's own position in the order k = 2*dy+dx" % [show(c) for c in got_children], kind="children-read")
+        definite = len(got_children) == 4 and all(c is not None and c[0] == "nt" for c in got_children)
+        (run.violated if definite else run.undecided)("C02.R3", f, reads[0].node if reads else None, "children read are %s; expected the four children (2x+dx, 2y+dy) of the "
+                     "callback's own position in the order k = 2*dy+dx" % [show(c)[:60] for c in got_children], kind="children-read")
         return
     for e in reads:
         kw = dict(e.term[3])
@@ -219,7 +220,9 @@ def _r3_r5_callback(run):
     slices_t = ("attr", ("sym", "self"), "_slices")
     ok_zip = len(za) == 2 and za[0] == slices_t and za[1][0] in ("tuple", "list") and tuple(za[1][1]) == tuple(imgs)
     if not ok_zip:
-        run.violated("C02.R3", f, lnode, "the placement table is zipped with %s; expected (self._slices, (img0, img1, img2, img3)) in child order" %
+        definite = len(za) == 2 and za[1][0] in ("tuple", "list") and sorted(za[1][1], key=repr) == sorted(imgs, key=repr)
+        definite = definite or (len(za) == 2 and za[0] != slices_t and za[0][0] == "sym")
+        (run.violated if definite else run.undecided)("C02.R3", f, lnode, "the placement table is zipped with %s; expected (self._slices, (img0, img1, img2, img3)) in child order" %
                      [show(a)[:80] for a in za], kind="zip-pairing")
         return
     e = upd[0]
